@@ -38,6 +38,9 @@ type tunCfg struct {
 	Adversary  int // chaos frames injected
 	Director   int // epoch-level faults injected
 	Sticky     int
+	Window     int // gateway's outbound window (1 = stop-and-wait)
+	Starve     int // permille of library goroutines held back at start
+	StarveMax  time.Duration
 	FaultFree  bool
 	MaxSteps   int
 }
@@ -139,6 +142,7 @@ func drawTunCfg(e *Env) tunCfg {
 		c.TimerLate = 100
 		c.LateMax = c.R / 4
 	}
+	c.Window = 1
 	switch p {
 	case "C03":
 		if shape == 9 { // wrap run: more than 256 acknowledged requests
@@ -157,6 +161,11 @@ func drawTunCfg(e *Env) tunCfg {
 	case "C04", "C17":
 		c.Senders = e.Choose("cfg.senders2", 2)
 		c.Inbound = 2 + e.Choose("cfg.inbound64", 63)
+		c.Window = []int{1, 2, 4, 8, 64}[e.Choose("cfg.window", 5)]
+		if e.Choose("cfg.starve", 3) == 0 {
+			c.Starve = []int{100, 300, 700}[e.Choose("cfg.starvep", 3)]
+			c.StarveMax = e.PickDur("cfg.starvemax", time.Millisecond, 20*time.Millisecond, 2*time.Second)
+		}
 		if shape == 9 {
 			c.Inbound = 300 + e.Choose("cfg.inwrap", 300)
 			c.InboundGap = 0
@@ -213,10 +222,10 @@ func drawTunCfg(e *Env) tunCfg {
 }
 
 func (c tunCfg) String() string {
-	return fmt.Sprintf("tcp=%v R=%v T=%v H=%v local=%v senders=%dx%d think=%v inbound=%d/%v reader=%s closers=%d early=%v up={drop=%d dup=%d late=%d dmax=%v} down={drop=%d dup=%d late=%d dmax=%v} tlate=%d adv=%d dir=%d sticky=%d",
+	return fmt.Sprintf("tcp=%v R=%v T=%v H=%v local=%v senders=%dx%d think=%v inbound=%d/%v reader=%s closers=%d early=%v up={drop=%d dup=%d late=%d dmax=%v} down={drop=%d dup=%d late=%d dmax=%v} tlate=%d adv=%d dir=%d sticky=%d window=%d starve=%d/%v",
 		c.TCP, c.R, c.T, c.H, c.LocalAddr, c.Senders, c.SendsEach, c.Think, c.Inbound, c.InboundGap, c.Reader, c.Closers, c.CloseEarly,
 		c.Up.DropPermille, c.Up.DupPermille, c.Up.LatePermille, c.Up.DelayMax, c.Down.DropPermille, c.Down.DupPermille, c.Down.LatePermille, c.Down.DelayMax,
-		c.TimerLate, c.Adversary, c.Director, c.Sticky)
+		c.TimerLate, c.Adversary, c.Director, c.Sticky, c.Window, c.Starve, c.StarveMax)
 }
 
 func idMessage(id int) cemi.Message {
@@ -288,6 +297,8 @@ func runTunnel(e *Env) {
 		sc.StickyPermille = c.Sticky
 		sc.LatePermille = c.TimerLate
 		sc.LateMax = c.LateMax
+		sc.StarvePermille = c.Starve
+		sc.StarveMax = c.StarveMax
 		if e.Spec.MaxSteps == 0 {
 			sc.MaxSteps = c.MaxSteps
 		}
@@ -300,6 +311,7 @@ func runTunnel(e *Env) {
 		return
 	}
 	r.gw = newGateway(e, gwIP, gwPort)
+	r.gw.Window = c.Window
 	r.gw.Start()
 
 	tun, err := knx.NewTunnel(fmt.Sprintf("%s:%d", gwIP, gwPort), knxnet.TunnelLayerData, knx.TunnelConfig{
